@@ -93,7 +93,22 @@ def lib():
                 _id, region = message
                 self.log.append((_id, region.data, region.start))
 
-        _L.update(auditok=auditok, w=w, core=core, util=util, Rec=Rec)
+        class Poll(Rec):
+            """Recording observer that also looks at the tokenizer worker's own detections list while it handles
+            a detection (a progress display, a monitor): the list is appended to before the detection is sent, so
+            at that moment it holds ids 1..k at least."""
+
+            tw = None
+
+            def __init__(self, timeout=0.2):
+                self.polls = []
+                super().__init__(timeout=timeout)
+
+            def _process_message(self, message):
+                super()._process_message(message)
+                self.polls.append((message[0], [d.id for d in self.tw.detections]))
+
+        _L.update(auditok=auditok, w=w, core=core, util=util, Rec=Rec, Poll=Poll)
     return _L
 
 
@@ -256,6 +271,10 @@ def make_factory(cfg):
             if o == "rec":
                 x = L["Rec"]()
                 ctx.recs.append(x)
+            elif o == "poll":
+                x = L["Poll"]()
+                ctx.recs.append(x)
+                ctx.pollers = getattr(ctx, "pollers", []) + [x]
             elif o == "crash":
                 x = L["Crash"]()
                 ctx.crashers = getattr(ctx, "crashers", []) + [x]
@@ -321,6 +340,8 @@ def make_factory(cfg):
             logger.addHandler(_H())
         ctx.tw = w.TokenizerWorker(reader, obs, logger=logger, **dict(SPLIT_VARIANTS[cfg["split"]], **cfg.get("split_extra", {})))
         _log_stop_request(ctx, ctx.tw)
+        for x in getattr(ctx, "pollers", ()):
+            x.tw = ctx.tw
         ctx.second = None
         if cfg.get("second"):
             # a second, independent pipeline in the same process (own reader, own saver, own observers)
@@ -643,6 +664,10 @@ def check(ex, ctx):
     if dets != [(i, s, e, du) for i, d, s, e, du in exp]:
         return "tokenizer worker's detections %r differ from split() of %s %r" % (
             dets, what, [(i, s, e, du) for i, d, s, e, du in exp])
+    for x in getattr(ctx, "pollers", ()):
+        for k, ids in x.polls:
+            if ids != list(range(1, len(ids) + 1)) or len(ids) < k:
+                return "while an observer handled detection %d the tokenizer worker's own detections list held ids %s" % (k, _short(ids))
     for n, r in enumerate(ctx.recs):
         if r.log != want:
             return "observer #%d processed ids %s, split() of %s gives ids %s (or data/start differ)" % (
@@ -949,6 +974,11 @@ def plan(prop, tier):
         for p, o, sp in (("AaA", ["rec", "print"], "s0"), ("AAAA", ["rec", "rec"], "s2"), ("AAaA", ["rec", "join", "regsave"], "s1")):
             tasks.append((dict(kind="run", pattern=p, observers=o, split=sp), 1, 0, "race", 2 if quick else 3, None))
         tasks.append((dict(kind="run", pattern="AaA", second="AAAA", observers=["rec", "print"], split="s0"), 0, 0, "race", 2, None))
+        # an observer that looks at the tokenizer worker's own detections list while it handles a detection
+        for p in ("AaA", "AAAA"):
+            tasks.append((dict(kind="run", pattern=p, observers=["poll", "rec"], split="s0" if p == "AaA" else "s2"), 1, 0, "sync", None, None))
+        for p, sp in (("AaA", "s0"), ("AA", "s2")):
+            tasks.append((dict(kind="run", pattern=p, observers=["poll"], split=sp), 1, 0, "race", 2, None if quick else 40000))
         # directed starvation schedules on a long stream (300 detections): capacity effects
         tasks.append((dict(kind="run", pattern="A" * 300, observers=["rec", "print"], split="s2"), 10 ** 6, 0, "directed", None, None))
         tasks.append((dict(kind="run", pattern="A" * 150, observers=["rec", "rec", "print"], split="s2"), 10 ** 6, 0, "directed", None, None))
